@@ -30,7 +30,8 @@ PROFILE = S.profile(min_tasks=1, max_tasks=3, horizon=(2, 5), p_no_horizon=0, p_
 # incremental loop - with few other elements so that the first model often sits on a bound
 PROFILE_BOUNDED = S.profile(min_tasks=1, max_tasks=2, horizon=(2, 5), p_no_horizon=0, p_resources=80, task_constraints=(0, 1), optional_rules=(0, 0), resource_constraints=(0, 0),
                             indicators=(1, 2), indicator_types=["FromMathExpression", "ResourceUtilization", "FromMathExpression"], objectives=(1, 1), p_optional=35,
-                            p_release=10, p_due=10, p_work_amount=0, p_cumulative=0, p_select=20, p_indicator_bounds=85, only_objectives=["MinimizeIndicator", "MaximizeIndicator"])
+                            p_release=10, p_due=10, p_work_amount=0, p_cumulative=0, p_select=20, p_indicator_bounds=85, only_objectives=["MinimizeIndicator", "MaximizeIndicator"],
+                            indicator_constraints=40, optional_constraints=60)  # optional IndicatorBounds/Target on the optimised indicator bind nothing
 # start-time objectives over optional tasks (an unscheduled task contributes to no objective)
 PROFILE_STARTOBJ = S.profile(min_tasks=2, max_tasks=3, horizon=(2, 5), p_no_horizon=0, p_resources=40, task_constraints=(0, 2), optional_rules=(0, 1), resource_constraints=(0, 0),
                              objectives=(1, 1), only_objectives=["TasksStartLatest", "MinimizeGreatestStartTime"], p_optional=65, p_release=20, p_due=30)
